@@ -1,6 +1,6 @@
 CONSTANTS
   Variant = "real"
-  Hosts <- Hosts2
+  Hosts <- Hosts3
   ReqPaths <- ReqPaths3
   CookiePaths <- CookiePaths2
   Names <- Names1
